@@ -7,14 +7,15 @@ SPEC = {'level': 'exploration',
                  'excluded by construction (asserted separately by the probe target c64_stripped_orphan, suspected genuine defect): fetching the genuine tx as a missing '
                  'parent by txid after a witness-stripped copy of it was stored as an orphan',
                  'a failure is re-run under 3 other RNG salts (rolling bloom filters) and only counts if it reproduces in all of them'],
- 'stages': [gen('vh_c64', 'c64_malleated', 2400, 36000, min_cases_quick=700,
-                floors={'variant-before-genuine': 0.5, 'variant-as-orphan': 0.1, 'closing-mode-A': 0.3, 'closing-mode-B': 0.15, 'variant-delivered:stripped': 0.08,
+ 'stages': [gen('vh_c64', 'c64_malleated', 560, 9000, min_cases_quick=180, max_seconds_quick=170, max_seconds_thorough=2400,
+                floors={'variant-before-genuine': 0.5, 'variant-as-orphan': 0.1, 'closing-mode-A': 0.3, 'closing-mode-B': 0.06, 'closing-mode-A2': 0.03, 'variant-delivered:stripped': 0.08,
                         'block': 0.2, 'genuine-served-on-request': 0.5},
                 rule='announcement/delivery histories of genuine tx and same-txid variants; non-trivial = variant seen before the genuine tx, which is then fetched and accepted'),
-            # deterministic probe of a suspected genuine defect (reported; see corpus/C64/SENSITIVITY.md): never run by the tiers, only via --replay
-            enum('vh_c64', 'c64_stripped_orphan', tiers=(), rule='probe: witness-stripped orphan copy masks the parent fetch (not part of the tiers)'),
-            gen('vh_c64', 'up_txdownloadman', 6000, 100000, min_cases_quick=1500, rule='upstream fuzz target txdownloadman (supplementary)'),
-            gen('vh_c64', 'up_txdownloadman_impl', 6000, 100000, min_cases_quick=1500, rule='upstream fuzz target txdownloadman_impl (supplementary)')]}
+            gen('vh_c64', 'up_txdownloadman', 3000, 60000, min_cases_quick=800, rule='upstream fuzz target txdownloadman (supplementary)'),
+            gen('vh_c64', 'up_txdownloadman_impl', 3000, 60000, min_cases_quick=800, rule='upstream fuzz target txdownloadman_impl (supplementary)'),
+            # deterministic 4-scenario probe of the accepted genuine low-severity defect (known_findings.txt): control, invalid-witness orphan copy,
+            # witness-stripped orphan copy (KNOWN-FINDING), orphan copy during a pending by-txid request (KNOWN-FINDING)
+            enum('vh_c64', 'c64_stripped_orphan', rule='probe: same-txid copy stored as an orphan vs by-txid fetch of the genuine tx (known findings)')]}
 
 META = {'level_text': 'Generated histories in which attacking wtxid-relay peers announce, deliver or answer with same-txid variants of a valid transaction (stripped, invalid, '
                'non-standard witness; also as orphans while the parent is unknown), stall or disconnect, with blocks and reorgs resetting the filters; then an honest '
